@@ -63,8 +63,10 @@ CLAIMS["C43"] = ("other", "cross-language agreement rules over Python ast (MJX) 
 CLAIMS["C44"] = ("other", "table agreement between MJX state/field tables (Python ast, partial evaluation of the size function) and the C state "
                  "switches / X-macro extents",
                  "Decides that MJX get_state/set_state use the same element->field map, sizes and bit order as mj_getState/mj_setState for "
-                 "every signature, that every field copied by name between C and MJX objects exists in the C struct, and that make_data builds "
-                 "exactly the declared fields with the C shapes. jit/vmap transparency and values are not decided.",
+                 "every signature, that every field copied by name between C and MJX objects exists in the C struct, that make_data builds "
+                 "exactly the declared fields with the C shapes, that the JAX transfer functions copy the host views they hand to "
+                 "jax.device_put, and that the hash key of static numpy fields (the jit cache key) is recomputed from the content on "
+                 "every path. jit/vmap transparency in general and values are not decided.",
                  "Trusts clang's AST and Python's ast.", "DESIGN.md 4/C44")
 
 CLAIMS["C46"] = ("other", "path-sensitive must-fact dataflow over Python ast: provenance of every residual() argument, dominance of the "
@@ -118,7 +120,8 @@ CLAIMS["C03"] = ("other", "protocol-shape analysis of ThreadPoolContext on the C
                  "Decides necessary structural conditions of exactly-once dispatch: ids only from an atomic RMW, the task function called "
                  "only with a claimed, bound-tested id, plain job fields written before the releasing publish and read after the acquiring "
                  "wait, the done counter incremented exactly once per round with release, Dispatch cannot return before the acquire poll "
-                 "of the done counter, destructor stores stop, notifies all and joins every thread, mju_threadpool deletes before replacing. "
+                 "of the done counter against the worker count, only workers check in on it, workers are started at construction only, "
+                 "the destructor stores stop, notifies all and joins every thread, mju_threadpool deletes before replacing. "
                  "Absence of lost wake-ups / deadlock over all interleavings is model checking and is NOT decided.",
                  "Trusts clang's AST; std::atomic/condition semantics as specified by the C++ memory model.", "DESIGN.md 4/C03")
 CLAIMS["C05"] = ("other", "exactly-once path rules, exact rational check of the constant-folded RK4 tableau, ownership of d->act writes over "
@@ -158,7 +161,8 @@ CLAIMS["C40"] = ("other", "lock-region, publish-ordering, reader-bound, provenan
 CLAIMS["C30"] = ("other", "event-order rules on the flattened stepping pipelines, all-paths shape rule of each check's bad branch, exhaustive "
                  "finite evaluation of mju_isBad over IEEE order types",
                  "Decides: mj_checkPos/mj_checkVel precede the first stage and mj_checkAcc sits between the acceleration stage and the "
-                 "integrator in mj_step and mj_step1;mj_step2 for every integrator; each check scans its whole (awake) vector and on the "
+                 "integrator in mj_step and mj_step1;mj_step2 for every integrator (stage-anchor flattening: helpers and wrappers are "
+                 "inlined); each check scans its whole (awake) vector unconditionally (directly or through a search helper) and on the "
                  "bad branch warns with the matching warning, resets exactly under !mjDISABLED(mjDSBL_AUTORESET), re-counts after the "
                  "reset and returns; mju_isBad is bad exactly for NaN and |x| > mjMAXVAL; mj_warning increments its counter on all paths. "
                  "'Every state component finite after every step' is value-level and not decided.", "Trusts clang's AST.",
@@ -167,8 +171,10 @@ CLAIMS["C34"] = ("other", "table agreement: name-lookup reader vs X-macro extent
                  "(C++ AST of mjCModel::CopyNames / namelist)",
                  "Decides for every model and object type: the count, the map-address decrement and the extent of the name-address array "
                  "agree per type; the reader's fall-through order equals the writer's layout order with the same scaling constant; both hash "
-                 "with the same function and modulus and probe compatibly (-1 sentinel); lookups index only inside their tables. Probe "
-                 "termination for adversarial tables is not decided.", "Trusts clang's AST/preprocessor.", "DESIGN.md 4/C34")
+                 "with the same function and modulus and probe compatibly (-1 sentinel); a table hit is a full string comparison including "
+                 "the terminator; lookups index only inside their tables. The reader is found by role (called by both lookups, switches "
+                 "on mjtObj), the writer's layout function through lambdas/helpers of the TU. Probe termination for adversarial tables "
+                 "is not decided.", "Trusts clang's AST/preprocessor.", "DESIGN.md 4/C34")
 
 CLAIMS["C37"] = ("other", "table-vs-layout check of the generated attribute tables against the clang struct layout, dominance of element parsers "
                  "by the schema check, interprocedural exception-type flow to the extern-C boundary, error-message path rule",
@@ -208,8 +214,10 @@ CLAIMS["C14"] = ("other", "finite truth-table evaluation of the filter predicate
                  "Decides: the bitmask filter (at each of its call sites) equals the documented contype/conaffinity rule over all 256 bit "
                  "assignments; the body-pair filter's table matches the documented same-body/weld/parent-child rules incl. the "
                  "FILTERPARENT guard; every path that enqueues a non-explicit pair passed the bitmask filter for that pair and the exclude "
-                 "lookup, explicit pairs use their own parameters, the disable-flag early return precedes any enqueue; sort comparators "
-                 "are antisymmetric. That SAP/BVH pruning never drops a close pair is geometric and not decided.",
+                 "lookup, explicit pairs use their own parameters, the disable-flag early return precedes any enqueue; every margin read of the "
+                 "driver goes through mj_assignMargin or sits on the not-overridden side of an override test (so all phases agree under "
+                 "mjENBL_OVERRIDE); sort comparators are antisymmetric. Decided on views in which private helpers are analysed inside "
+                 "their callers. That SAP/BVH pruning never drops a close pair is geometric and not decided.",
                  "Trusts clang's AST; NaN keys are outside the property's configurations (checked states).", "DESIGN.md 4/C14")
 CLAIMS["C16"] = ("other", "finite evaluation of the nearest-hit update predicate over order types (incl. NaN and the -1 sentinel), paired-write, "
                  "initialisation, sibling-dispatch and must-write path rules",
